@@ -32,7 +32,7 @@ PROPS = {
         tiers=dict(
             quick=[enum(shards=8, env={'VH_ENUM_L': '5'}), rc(20000, shards=4, corpus=CORPUS), fuzz(150000, shards=4, corpus=CORPUS)],
             thorough=[enum(shards=16, env={'VH_ENUM_L': '6'}), rc(400000, shards=6, max_size=400, corpus=CORPUS),
-                      fuzz(8000000, shards=10, max_len=2048, corpus=CORPUS)],
+                      fuzz(3000000, shards=10, max_len=2048, corpus=CORPUS)],
         ),
         exhaustive_note=lambda tier, tot: [dict(scope='all chunk sequences of length <= %d over the 27-chunk alphabet x {object,array,no} delimiters x '
                                                  '{object,array} root x max_depth in {1,2,3,10,255}' % (5 if tier == 'quick' else 6),
@@ -55,7 +55,7 @@ def nav(propid, nt_rule):
             quick=[enum(shards=4, variant='san', env={'VH_ENUM_N': '5'}), rc(25000, shards=6, max_size=300, corpus=['valid_objects']),
                    fuzz(100000, shards=6, corpus=['valid_objects'])],
             thorough=[enum(shards=12, variant='san', env={'VH_ENUM_N': '6'}), enum(shards=16, variant='plain', tag='plain7', env={'VH_ENUM_N': '7'}),
-                      rc(500000, shards=6, max_size=500, corpus=['valid_objects']), fuzz(10000000, shards=10, max_len=1024, corpus=['valid_objects'])],
+                      rc(500000, shards=6, max_size=500, corpus=['valid_objects']), fuzz(1200000, shards=10, max_len=1024, corpus=['valid_objects'])],
         ),
         exhaustive_note=lambda tier, tot: [dict(scope='every protocol-legal call history (any length; visited-set BFS) on every object- and array-rooted tree with '
                                                  '<= %d nodes over {object, array, int, bool}' % (5 if tier == 'quick' else 7), exhaustive=True,
@@ -83,7 +83,7 @@ PROPS['C01'] = dict(
          'distinct = hash(document, executed op kinds).',
     tiers=dict(
         quick=[rc(30000, shards=6, max_size=250, corpus=CORPUS), fuzz(400000, shards=10, corpus=CORPUS)],
-        thorough=[rc(600000, shards=4, max_size=500, corpus=CORPUS), fuzz(40000000, shards=12, max_len=4096, corpus=CORPUS)],
+        thorough=[rc(600000, shards=4, max_size=500, corpus=CORPUS), fuzz(6000000, shards=12, max_len=4096, corpus=CORPUS)],
     ),
 )
 
@@ -97,7 +97,7 @@ PROPS['C14'] = dict(
         quick=[enum(shards=4, variant='san', env={'VH_ENUM_N': '6'}), rc(30000, shards=6, max_size=250, corpus=['valid_objects']),
                fuzz(150000, shards=6, corpus=['valid_objects'])],
         thorough=[enum(shards=8, variant='san', env={'VH_ENUM_N': '8'}), rc(600000, shards=4, max_size=500, corpus=['valid_objects']),
-                  fuzz(6000000, shards=12, max_len=1024, corpus=['valid_objects'])],
+                  fuzz(1500000, shards=12, max_len=1024, corpus=['valid_objects'])],
     ),
     exhaustive_note=lambda tier, tot: [dict(scope='all object- and array-rooted trees with <= %d nodes over {object, array, int, bool}' % (6 if tier == 'quick' else 8),
                                              exhaustive=True, trees=tot['counters'].get('enum_trees', 0))],
@@ -111,7 +111,7 @@ PROPS['C13'] = dict(
     tiers=dict(
         quick=[enum(shards=2, variant='san', env={'VH_ENUM_N': '5'}), rc(10000, shards=7, max_size=250, corpus=CORPUS), fuzz(10000, shards=7, max_len=256, corpus=CORPUS)],
         thorough=[enum(shards=4, variant='san', env={'VH_ENUM_N': '7'}), rc(300000, shards=4, max_size=500, corpus=CORPUS),
-                  fuzz(400000, shards=12, max_len=1024, corpus=CORPUS)],
+                  fuzz(120000, shards=12, max_len=1024, corpus=CORPUS)],
     ),
     exhaustive_note=lambda tier, tot: [dict(scope='every capacity 0..need+3 of every tree with <= %d nodes over {object, array, int, bool}' % (5 if tier == 'quick' else 7),
                                              exhaustive=True, trees=tot['counters'].get('enum_trees', 0))],
@@ -126,7 +126,7 @@ PROPS['C15'] = dict(
           'Non-trivial iff (bytes) init accepts the buffer, or (trees) the encoding exceeds 1000 bytes or nesting >= 3; distinct = hash(bytes, part).'),
     tiers=dict(
         quick=[rc(25000, shards=8, max_size=300, corpus=CORPUS), fuzz(100000, shards=8, corpus=CORPUS)],
-        thorough=[rc(500000, shards=6, max_size=600, corpus=CORPUS), fuzz(5000000, shards=10, max_len=2048, corpus=CORPUS)],
+        thorough=[rc(500000, shards=6, max_size=600, corpus=CORPUS), fuzz(1000000, shards=10, max_len=2048, corpus=CORPUS)],
     ),
 )
 
@@ -140,7 +140,7 @@ PROPS['C04'] = dict(
          'falls strictly inside a token; distinct = hash(encoding, call count, capacity).',
     tiers=dict(
         quick=[rc(12000, shards=8, max_size=250), fuzz(30000, shards=8, max_len=256)],
-        thorough=[rc(200000, shards=6, max_size=500), fuzz(1500000, shards=10, max_len=1024)],
+        thorough=[rc(200000, shards=6, max_size=500), fuzz(250000, shards=10, max_len=1024)],
     ),
 )
 PROPS['C05'] = dict(
@@ -152,7 +152,7 @@ PROPS['C05'] = dict(
          '(every 64th boundary integer and every length are entered into the distinct set).',
     tiers=dict(
         quick=[enum(shards=8, variant='plain'), rc(20000, shards=4, max_size=300), fuzz(100000, shards=4, max_len=512)],
-        thorough=[enum(shards=16, variant='plain'), rc(400000, shards=4, max_size=600), fuzz(5000000, shards=10, max_len=2048)],
+        thorough=[enum(shards=16, variant='plain'), rc(400000, shards=4, max_size=600), fuzz(1500000, shards=10, max_len=2048)],
     ),
     exhaustive_note=lambda tier, tot: [dict(scope='integers within 2^16 of +-2^k, k=0..63' + (' and all 2^32 32-bit values' if tier == 'thorough' else ''),
                                              exhaustive=True, values=tot['counters'].get('enum_boundary_integers', 0) + tot['counters'].get('enum_all_int32', 0)),
@@ -170,8 +170,8 @@ PROPS['C09'] = dict(
     tiers=dict(
         quick=[rc(30000, shards=4, max_size=250, corpus=CORPUS), fuzz(300000, shards=5, corpus=CORPUS),
                rc(30000, shards=3, max_size=250, harness='writer', tag='w'), fuzz(150000, shards=4, max_len=256, harness='writer', tag='w')],
-        thorough=[rc(600000, shards=3, max_size=500, corpus=CORPUS), fuzz(30000000, shards=7, max_len=4096, corpus=CORPUS),
-                  rc(600000, shards=2, max_size=500, harness='writer', tag='w'), fuzz(10000000, shards=4, max_len=1024, harness='writer', tag='w')],
+        thorough=[rc(600000, shards=3, max_size=500, corpus=CORPUS), fuzz(5000000, shards=7, max_len=4096, corpus=CORPUS),
+                  rc(600000, shards=2, max_size=500, harness='writer', tag='w'), fuzz(2500000, shards=4, max_len=1024, harness='writer', tag='w')],
     ),
 )
 
@@ -186,7 +186,7 @@ PROPS['C03'] = dict(
           'Non-trivial iff the document has an integer outside int8, a length >= 128 or nesting >= 2; distinct = hash(document) / sampled sweep values.'),
     tiers=dict(
         quick=[enum(shards=8, variant='plain'), rc(20000, shards=4, max_size=300, corpus=['valid_objects']), fuzz(100000, shards=4, max_len=512, corpus=['valid_objects'])],
-        thorough=[enum(shards=16, variant='plain'), rc(400000, shards=4, max_size=600, corpus=['valid_objects']), fuzz(5000000, shards=10, max_len=2048, corpus=['valid_objects'])],
+        thorough=[enum(shards=16, variant='plain'), rc(400000, shards=4, max_size=600, corpus=['valid_objects']), fuzz(1500000, shards=10, max_len=2048, corpus=['valid_objects'])],
     ),
     exhaustive_note=lambda tier, tot: [dict(scope='integer encodings within 2^16 of +-2^k, k=0..63' + (' and all 2^32 1-, 2- and 4-byte encodings' if tier == 'thorough' else ''),
                                              exhaustive=True, values=tot['counters'].get('enum_boundary_integers', 0) + tot['counters'].get('enum_all_int32', 0)),
@@ -201,7 +201,7 @@ PROPS['C10'] = dict(
           'distinct = hash(document).'),
     tiers=dict(
         quick=[enum(shards=2, variant='san'), rc(30000, shards=7, max_size=300, corpus=['valid_objects']), fuzz(150000, shards=7, max_len=512, corpus=['valid_objects'])],
-        thorough=[enum(shards=2, variant='san'), rc(600000, shards=4, max_size=600, corpus=['valid_objects']), fuzz(6000000, shards=10, max_len=2048, corpus=['valid_objects'])],
+        thorough=[enum(shards=2, variant='san'), rc(600000, shards=4, max_size=600, corpus=['valid_objects']), fuzz(1500000, shards=10, max_len=2048, corpus=['valid_objects'])],
     ),
     exhaustive_note=lambda tier, tot: [dict(scope='all shipped valid corpus files (utest/test_data/valid_objects)', exhaustive=True,
                                              files=tot['counters'].get('corpus_files_transcribed', 0))],
@@ -218,7 +218,7 @@ PROPS['C08'] = dict(
           'distinct = hash(bytes, strategy choices).'),
     tiers=dict(
         quick=[rc(30000, shards=7, max_size=250, corpus=CORPUS), fuzz(200000, shards=9, corpus=CORPUS)],
-        thorough=[rc(600000, shards=4, max_size=500, corpus=CORPUS), fuzz(15000000, shards=12, max_len=2048, corpus=CORPUS)],
+        thorough=[rc(600000, shards=4, max_size=500, corpus=CORPUS), fuzz(2000000, shards=12, max_len=2048, corpus=CORPUS)],
     ),
 )
 
@@ -234,7 +234,7 @@ PROPS['C12'] = dict(
           'calls were compared (writer: the previous use ended in an error); distinct = hash(both documents, op kinds).'),
     tiers=dict(
         quick=[rc(30000, shards=7, max_size=300, corpus=CORPUS), fuzz(250000, shards=9, corpus=CORPUS)],
-        thorough=[rc(600000, shards=4, max_size=600, corpus=CORPUS), fuzz(20000000, shards=12, max_len=2048, corpus=CORPUS)],
+        thorough=[rc(600000, shards=4, max_size=600, corpus=CORPUS), fuzz(2500000, shards=12, max_len=2048, corpus=CORPUS)],
     ),
 )
 
@@ -249,7 +249,7 @@ PROPS['C16'] = dict(
         quick=[rc(30000, shards=6, max_size=250, corpus=CORPUS, hang_is_violation=True, timeout=400),
                fuzz(350000, shards=10, corpus=CORPUS, unit_timeout=10, timeouts_count=True)],
         thorough=[rc(600000, shards=4, max_size=500, corpus=CORPUS, hang_is_violation=True, timeout=3000),
-                  fuzz(40000000, shards=12, max_len=4096, corpus=CORPUS, unit_timeout=10, timeouts_count=True)],
+                  fuzz(5000000, shards=12, max_len=4096, corpus=CORPUS, unit_timeout=10, timeouts_count=True)],
     ),
 )
 
@@ -267,12 +267,12 @@ PROPS['C17'] = dict(
           'interleaving with >= 4 switches); distinct = hash(shape parameters / documents and schedule).'),
     tiers=dict(
         quick=[rc(350, shards=2, max_size=200, variant=v, tag=v) for v in FOOT_VARIANTS],
-        thorough=[rc(8000, shards=2, max_size=300, variant=v, tag=v) for v in FOOT_VARIANTS],
+        thorough=[rc(2500, shards=2, max_size=300, variant=v, tag=v) for v in FOOT_VARIANTS],
     ),
 )
 
 PROPS['C18'] = dict(
-    custom='c18_driver', harness='diff', cases=dict(quick=240000, thorough=4000000),
+    custom='c18_driver', harness='diff', cases=dict(quick=240000, thorough=2400000),
     rule=('cases: scenarios = byte strings generated once per run by rapidcheck and decoded into (a) a document (tree / mutation / chain / raw / shipped '
           'corpus) plus a script of up to 48 calls over the whole public parser API incl. lookups, getters, print and to_string, (b) a writer call sequence '
           'with a generated capacity, writer_verify and reset, (c) all three Binson::deserialize overloads, serialize, toStr, iteration order and put() in '
